@@ -12,10 +12,13 @@
   appears only as the parameter `oracle` of `mwpmNetworkx`, with its documented contract `NxContract` as an explicit
   hypothesis of `mwpmNetworkx_min_weight_perfect`.  That the real routine meets the contract is TESTED on every run
   against the proved oracle `minPM` (harness/qv/props/c13.py, reported under `coverage.explored`), not proved.
-  The Blossom V backend (C library) is likewise a parameter (`mwpmBlossom5`, `mwpm`).
+  The Blossom V backend (C library) is likewise a parameter (`mwpmBlossom5`, `mwpm`); the pure part of that path
+  (`weight_to_int_fn`: rounding within 1/2, monotone scaling, what an optimum for the integer weights means for the
+  original weights under the scaled and the identity rule, no C-int overflow) is in Props/C13/Blossom.lean.
 -/
 import QecVerif.Model.Matching
 import QecVerif.Lemmas.Matching
+import QecVerif.Props.C13.Blossom
 namespace Qec.C13
 open Qec Qec.Matching
 
